@@ -182,7 +182,17 @@ def do_op(w: World, op):
     if k == "init":
         _, _, app, unit = op
         if app in n["active"]:
-            return "skip"
+            # a second registration of an id that is still registered (another host program picked the same id): it must be
+            # refused and must leave the running application exactly as it was
+            before = snapshot_app(n["ex"], node, app)
+            r = w.send(node, InitNewAppMessage(app_id=app, max_qubits=unit), app)
+            after = snapshot_app(n["ex"], node, app)
+            if r == "done":
+                return "fault-visible:the controller accepted a second registration of the running application id"
+            if after != before:
+                diff = [x for x in before if before[x] != after[x]]
+                return f"fault-visible:a refused second registration changed the running application ({', '.join(diff)}: {before[diff[0]]} -> {after[diff[0]]})"
+            return "refused"
         r = w.send(node, InitNewAppMessage(app_id=app, max_qubits=unit), app)
         if r == "done":
             n["active"][app] = unit
@@ -329,6 +339,10 @@ def run_history(ctx, ops):
             return f"operation {i} {op}: {e}", None
         if _state["viol"]:
             return f"operation {i} {op}: {_state['viol']}", None
+        if isinstance(res, str) and res.startswith("fault-visible:"):
+            return f"operation {i} {op}: {res.split(':', 1)[1]}", None
+        if res == "refused":
+            ctx.count("duplicate_registrations_refused")
         if isinstance(res, str) and res.startswith("fault") and op[0] in ("init", "stop"):
             return f"operation {i} {op}: {res} (registering / stopping an application must not fail)", None
         err = check_invariants(w, ctx, f"after operation {i} {op} -> {res}")
